@@ -43,15 +43,14 @@ X1_DOMAIN = {
     ("cij.cli.extract", "main"): dict(one_of={"temperature", "pressure"}, nonempty={"variables"},
                                       why="extract requires exactly one of -T / -P and at least one variable (C19's domain)"),
     ("cij.cli.geotherm", "main"): dict(one_of=set(), nonempty={"variables"}, why="extract-geotherm requires at least one variable"),
+    # the remaining assumptions identify their construct structurally (parameter position, loop shape), never by a local's name
+    ("cij.core.mode_gamma", "interpolate_mode_ppoly"): dict(enum_param=3, why="an if/elif chain comparing parameter #3 (the method name) with string constants is "
+                                                            "exhaustive: the callee handles exactly the names its only caller dispatches to it (decided by R11.5 dispatch.ppoly)"),
+    ("cij.plot.modes", "ModePlotter.plot_modes"): dict(enum_param=2, why="an if/elif chain comparing parameter #2 (n) with constants is exhaustive: n outside {0,1,2} is outside C11's n = 0,1,2"),
+    ("cij.io.traditional.qha_input", "read_energy"): dict(file_search=True, why="a search loop over the lines of the opened file that stops at a pattern hit does hit: "
+                                                          "a file without a counts line is outside 'well-formed file'"),
 }
 X1_SUPPRESS = {
-    ("cij.core.mode_gamma", "interpolate_mode_ppoly", "Interpolator"): "callee handles exactly the names its only caller dispatches to it: decided by R11.5 (dispatch.ppoly)",
-    ("cij.io.traditional.qha_input", "read_energy", "nv"): "file without a counts line: outside 'well-formed file'",
-    ("cij.io.traditional.qha_input", "read_energy", "nq"): "file without a counts line: outside 'well-formed file'",
-    ("cij.io.traditional.qha_input", "read_energy", "np"): "file without a counts line: outside 'well-formed file'",
-    ("cij.io.traditional.qha_input", "read_energy", "nm"): "file without a counts line: outside 'well-formed file'",
-    ("cij.io.traditional.qha_input", "read_energy", "na"): "file without a counts line: outside 'well-formed file'",
-    ("cij.plot.modes", "ModePlotter.plot_modes", "w_arrays"): "n outside {0,1,2}: outside C11's n = 0,1,2",
     ("cij.plot.quick", "_guess_unit", None): "plotting helper, no property",
 }
 
@@ -252,6 +251,54 @@ def r_gamma_store(ctx, model):
     px.done("C01.r_average")
 
 
+def x1_hooks(f, dom):
+    """domain assumptions of one function as hooks for the definite-assignment walk"""
+    def _names(node):
+        return {x.id for x in ast.walk(node) if isinstance(x, ast.Name)}
+    params = [a.arg for a in f.args.posonlyargs + f.args.args]
+    one_of = set(dom.get("one_of", ()))
+    enum_name = params[dom["enum_param"]] if dom.get("enum_param") is not None and dom["enum_param"] < len(params) else None
+
+    def exhaustive(chain):
+        if one_of:
+            # every link tests only option parameters of the one-of group, and together they mention all of them
+            used = set()
+            for tnode in chain:
+                nm = _names(tnode) - {"None", "True", "False"}
+                if not nm or not nm <= one_of:
+                    break
+                used |= nm
+            else:
+                if used == one_of:
+                    return True
+        if enum_name is not None:
+            # every link compares the enumerated parameter with a constant (== c, in (c, ...))
+            def link(t):
+                return isinstance(t, ast.Compare) and len(t.ops) == 1 and isinstance(t.ops[0], (ast.Eq, ast.In)) and isinstance(t.left, ast.Name) \
+                    and t.left.id == enum_name and all(isinstance(c, ast.Constant) for c in
+                                                       (t.comparators[0].elts if isinstance(t.comparators[0], (ast.Tuple, ast.List, ast.Set)) else t.comparators))
+            return all(link(t) for t in chain)
+        return False
+
+    def nonempty(it):
+        return isinstance(it, ast.Name) and it.id in dom.get("nonempty", ())
+
+    opened = set()
+    for n in ast.walk(f):
+        if isinstance(n, ast.With):
+            for it in n.items:
+                if isinstance(it.optional_vars, ast.Name) and isinstance(it.context_expr, ast.Call) \
+                        and src(it.context_expr.func).split(".")[-1] == "open":
+                    opened.add(it.optional_vars.id)
+
+    def search_hits(loop):
+        # `for line in <opened file>:` whose breaks are all guarded by a test (a search that stops at a hit)
+        if not dom.get("file_search") or not (isinstance(loop.iter, ast.Name) and loop.iter.id in opened):
+            return False
+        return all(isinstance(st, ast.If) or not any(isinstance(x, ast.Break) for x in ast.walk(st)) for st in loop.body)
+    return dict(exhaustive=exhaustive, nonempty=nonempty, search_hits=search_hits)
+
+
 def r_wellformed(ctx, model):
     """X1 definite assignment + X4 undefined global names over every function of the package"""
     import builtins
@@ -281,22 +328,7 @@ def r_wellformed(ctx, model):
             nf += 1
             dom = X1_DOMAIN.get((mname, q))
             if dom:
-                def _names(node):
-                    return {x.id for x in ast.walk(node) if isinstance(x, ast.Name)}
-
-                def exhaustive(chain, dom=dom):
-                    # every link tests only option parameters of the one-of group, and together they mention all of them
-                    used = set()
-                    for tnode in chain:
-                        nm = _names(tnode) - {"None", "True", "False"}
-                        if not nm or not nm <= dom["one_of"]:
-                            return False
-                        used |= nm
-                    return bool(dom["one_of"]) and used == dom["one_of"]
-
-                def nonempty(it, dom=dom, f=f):
-                    return isinstance(it, ast.Name) and it.id in dom["nonempty"]
-                da = DefiniteAssignment(f, exhaustive=exhaustive, nonempty=nonempty)
+                da = DefiniteAssignment(f, **x1_hooks(f, dom))
                 suppressed.append(f"{mname}:{q} - domain assumption: {dom['why']}")
             else:
                 da = DefiniteAssignment(f)
